@@ -73,6 +73,7 @@ def code_to_sympy(node, env):
 
 
 def run(chk, repo, tier):
+    run_n15(chk, repo)       # before N9, whose evaluator gives up (exit 2) on sort keys it cannot execute
     run_n12(chk, repo)       # first: N1 below gives up (exit 2) on a counting idiom it does not know
     chk.explanation = (
         'N1: the expression returned by calculate_aic and by each branch of calculate_bic, with the counting idioms '
@@ -875,3 +876,85 @@ def run_n14(chk, repo):
                               line=c.lineno)
     if n < 3:
         raise AnalysisError(f'N14: only {n} reductions found in bootstrap/results.py')
+
+
+def run_n15(chk, repo):
+    """N15: rank_models sorts best-first. With an eligible base model the key is the delta to the reference (larger is
+    better); when the base model has no reference value (it failed the strictness criteria or its OFV is NaN) the key must
+    order by the rank value itself with the opposite sign (smaller criterion value is better). Structural clause: on the
+    isnan(<reference>) path the sort key of `sorted(models_to_rank, key=.., reverse=R)` is -rank_value when R is True and
+    +rank_value when R is False."""
+    N15 = chk.rule('N15', 'rank_models: without a reference value the candidates are still sorted best-first (key = -rank value '
+                          'under reverse=True)', floor=1)
+    m = repo.module('pharmpy.tools.run')
+    f = m.functions.get('rank_models')
+    if f is None:
+        raise AnalysisError('N15: rank_models not found')
+    sorts = [c for c in ast.walk(f.node) if isinstance(c, ast.Call) and dotted(c.func) == 'sorted'
+             and any(k.arg == 'key' for k in c.keywords) and c.args and 'rank' in unparse(c.args[0])]
+    if not sorts:
+        raise AnalysisError('N15: sorted(<models to rank>, key=..) not found in rank_models')
+    ldefs, fdefs = {}, {}
+    for a_ in ast.walk(f.node):
+        if isinstance(a_, ast.Assign) and len(a_.targets) == 1 and isinstance(a_.targets[0], ast.Name):
+            ldefs.setdefault(a_.targets[0].id, []).append(a_.value)
+        elif isinstance(a_, ast.FunctionDef) and a_ is not f.node:
+            fdefs[a_.name] = a_
+
+    def isnan_test(t):
+        return any(isinstance(c, ast.Call) and (dotted(c.func) or '').split('.')[-1] in ('isnan', 'isna', 'isnull') for c in ast.walk(t))
+
+    def on_nan_path(e, depth=0):
+        """the expression the key evaluates to when the reference value is NaN: (sign, table name) or None"""
+        if depth > 6:
+            return None
+        if isinstance(e, ast.Lambda):
+            return on_nan_path(e.body, depth + 1)
+        if isinstance(e, ast.UnaryOp) and isinstance(e.op, ast.USub):
+            r = on_nan_path(e.operand, depth + 1)
+            return None if r is None else (-r[0], r[1])
+        if isinstance(e, ast.IfExp) and isnan_test(e.test):
+            neg = isinstance(e.test, ast.UnaryOp) and isinstance(e.test.op, ast.Not)
+            return on_nan_path(e.orelse if neg else e.body, depth + 1)
+        if isinstance(e, ast.Subscript):
+            return on_nan_path(e.value, depth + 1)
+        if isinstance(e, ast.Call) and isinstance(e.func, ast.Attribute) and e.func.attr == 'get':
+            return on_nan_path(e.func.value, depth + 1)
+        if isinstance(e, ast.Name):
+            if e.id in fdefs:
+                fd = fdefs[e.id]
+                for s in fd.body:
+                    if isinstance(s, ast.If) and isnan_test(s.test):
+                        neg = isinstance(s.test, ast.UnaryOp) and isinstance(s.test.op, ast.Not)
+                        br = s.orelse if neg else s.body
+                        rets = [x for x in br if isinstance(x, ast.Return)]
+                        if not rets and neg:
+                            rets = [x for x in fd.body[fd.body.index(s) + 1:] if isinstance(x, ast.Return)]
+                        return on_nan_path(rets[0].value, depth + 1) if rets else None
+                    if isinstance(s, ast.Return):
+                        return on_nan_path(s.value, depth + 1)
+                return None
+            if 'rank_value' in e.id:
+                return (1, e.id)
+            if len(ldefs.get(e.id, [])) == 1:
+                return on_nan_path(ldefs[e.id][0], depth + 1)
+            return None
+        return None
+    for c in sorts:
+        key = next(k.value for k in c.keywords if k.arg == 'key')
+        rev = next((k.value for k in c.keywords if k.arg == 'reverse'), ast.Constant(False))
+        if not isinstance(rev, ast.Constant):
+            raise AnalysisError(f'N15: reverse={unparse(rev)} is not a constant')
+        r = on_nan_path(key)
+        if r is None:
+            raise AnalysisError(f'N15: cannot follow the sort key {unparse(key)[:60]} on the no-reference path')
+        sign, table = r
+        ok = (sign == -1) == bool(rev.value)
+        chk.instance(N15, f'rank_models: {unparse(c)[:70]}: key on the NaN-reference path = {"-" if sign < 0 else "+"}{table}, '
+                          f'reverse={rev.value}: best first: {ok}')
+        if not ok:
+            chk.violation(N15, m.rel, f.qualname, unparse(c)[:90],
+                          f'without a reference value the candidates are sorted by {"-" if sign < 0 else "+"}{table} with '
+                          f'reverse={rev.value}: the WORST candidate gets rank 1', line=c.lineno,
+                          witness='base model with minimization_successful=False and two eligible candidates with different OFV: '
+                                  'the higher OFV is ranked 1 and summarize_tool selects it')
